@@ -22,12 +22,12 @@ def ensure_wt():
         rc, o = sh(f"git -C /repo worktree add --detach {WT} HEAD")
         assert rc == 0, o
     else:
-        sh("git checkout -q -- . && git clean -qfd -e target", cwd=WT)
+        sh("git reset -q --hard && git clean -qfd -e target", cwd=WT)
         head = subprocess.check_output("git -C /repo rev-parse HEAD", shell=True, text=True).strip()
         sh(f"git checkout -q --detach {head}", cwd=WT)
 
 def reset_wt():
-    sh("git checkout -q -- . && git clean -qfd -e target", cwd=WT)
+    sh("git reset -q --hard && git clean -qfd -e target", cwd=WT)
 
 def apply(diff):
     rc, o = sh(f"git apply --whitespace=nowarn {diff}", cwd=WT)
